@@ -472,7 +472,12 @@ class RegionGeomToO:
         return times
 
     def get_beta_angle(self, nadir_angle):
-        return np.arccos(((self.core_alt) / self.earth_radius) * np.sin(nadir_angle))
+        # Lines of sight that miss the Earth have |argument| > 1; clip so that an
+        # angle_from_limb larger than twice the horizon angle means "no limb
+        # constraint" instead of a NaN limit that silently rejects every event.
+        return np.arccos(
+            np.clip((self.core_alt / self.earth_radius) * np.sin(nadir_angle), -1.0, 1.0)
+        )
 
     def get_path_length(self, beta, nadir_angle):
         return self.core_alt * np.cos(nadir_angle + beta) / np.cos(beta)
